@@ -24,6 +24,18 @@ def main(tier):
                    "the recursive-descent schema itself (textbook precedence climbing); its parameter tables are what is checked"]
     if F is None:
         return run.finish("table comparison", "./check C04 --tier %s" % tier)
+    # 0. "the value is that of evaluating the tree so obtained": eval is a structural recursion over that tree (an arm
+    # that regroups its operand's tree -- (a^b)^c computed as a^(b*c) -- evaluates a different tree)
+    from .c20 import tree_walk
+    nuses = 0
+    for ev, m in models.items():
+        node = m.tb.adt("ast::Node")
+        if node is None:
+            run.ob(False, "anchor|%s" % ev, "C04 anchor", ev, "Node enum not found")
+            continue
+        ftypes = {v["name"]: [f["ty"] for f in v["fields"]] for v in node["variants"]}
+        nuses += tree_walk(run, m, ev, m.tb.eval_arms(), ftypes, tag="C04 premise (tree walk):")
+    run.floor("child uses inspected", nuses, 150)
     # 1. category order
     order, derived, manual = category_order(F)
     want = [c for c in spec.CATEGORY_ORDER if ("eval_i64" in models or c not in spec.I64_ONLY_CATEGORIES)]
